@@ -20,6 +20,8 @@ def main():
         if b == "atlas" or a.tier == "thorough":
             ps += gen.c13_programs(b, a.tier)
         ps += [gen.make_program(q, b) for q in gen.c02_extra(b)]
+        ps += gen.c10_programs(b) + gen.c11_programs(b)          # declared types (incl. tree types, enums) and injected functions
+        ps = [p for p in ps if "must_raise" not in p.tags]
         meta["families"][b] = dict(m, programs=len(ps))
         programs += ps
     if a.limit:
